@@ -105,6 +105,7 @@ def prepare_sources(u, sdir, log):
         tu_paths[rel] = path
         if tu.get('include_as'):
             defs.append('-D%s="%s"' % (tu['include_as'], path))
+            defs.append('-I' + os.path.dirname(src_path))   # relative includes of an overlay copy
     # 2. compile TUs that are linked separately (through the wrapper => prelude in force)
     for tu in u.get('tus', []):
         if tu.get('include_as'):
